@@ -63,14 +63,17 @@ CONFIGS = {
         ('M3', dict(fn='MCFn2', K=1, depth=3, minv=1, maxv=1, P=3, S=1, T=3, mod=1, workers=3)),
     ],
     'thorough': [
-        ('S4', dict(fn='MCFn2', K=1, depth=3, minv=0, maxv=2, P=1, S=4, T=4, mod=8, workers=8)),
-        ('K2', dict(fn='MCFn2', K=2, depth=3, minv=0, maxv=1, P=1, S=3, T=3, mod=2, workers=4)),
-        ('K2v', dict(fn='MCFn2', K=2, depth=3, minv=0, maxv=2, P=1, S=2, T=2, mod=1, workers=2)),
-        ('M2', dict(fn='MCFn2', K=1, depth=3, minv=0, maxv=2, P=2, S=3, T=3, mod=4, workers=8)),
-        ('M3', dict(fn='MCFn2', K=1, depth=3, minv=1, maxv=2, P=3, S=2, T=3, mod=4, workers=8)),
-        ('M2K2', dict(fn='MCFn2', K=2, depth=2, minv=0, maxv=1, P=2, S=2, T=3, mod=2, workers=4)),
-        ('D4', dict(fn='MCFn2', K=1, depth=4, minv=1, maxv=2, P=1, S=3, T=3, mod=2, workers=4)),
-        ('F3', dict(fn='MCFn3', K=1, depth=3, minv=1, maxv=1, P=2, S=3, T=3, mod=2, workers=4)),
+        ('S3', dict(fn='MCFn2', K=1, depth=3, minv=0, maxv=2, P=1, S=3, T=3, mod=2, workers=8)),
+        ('S4', dict(fn='MCFn2', K=1, depth=3, minv=1, maxv=2, P=1, S=4, T=4, mod=4, workers=8)),
+        ('K2', dict(fn='MCFn2', K=2, depth=3, minv=0, maxv=1, P=1, S=3, T=3, mod=3, workers=8)),
+        ('K2v', dict(fn='MCFn2', K=2, depth=3, minv=0, maxv=2, P=1, S=2, T=2, mod=1, workers=8)),
+        ('M2', dict(fn='MCFn2', K=1, depth=3, minv=1, maxv=2, P=2, S=3, T=3, mod=3, workers=8)),
+        ('M2z', dict(fn='MCFn2', K=1, depth=3, minv=0, maxv=2, P=2, S=2, T=2, mod=1, workers=8)),
+        ('M3', dict(fn='MCFn2', K=1, depth=3, minv=1, maxv=2, P=3, S=1, T=3, mod=2, workers=8)),
+        ('M3b', dict(fn='MCFn2', K=1, depth=3, minv=1, maxv=1, P=3, S=2, T=3, mod=2, workers=8)),
+        ('M2K2', dict(fn='MCFn2', K=2, depth=2, minv=0, maxv=1, P=2, S=2, T=3, mod=2, workers=8)),
+        ('D4', dict(fn='MCFn2', K=1, depth=4, minv=1, maxv=2, P=1, S=3, T=3, mod=3, workers=8)),
+        ('F3', dict(fn='MCFn3', K=1, depth=3, minv=1, maxv=1, P=2, S=2, T=3, mod=4, workers=8)),
     ],
 }
 # the statement's root-sum clause on ALL samples (empty stacks included): expected to yield a candidate counterexample
@@ -104,6 +107,7 @@ def _model_check(name, c, sd, casefile_dir, timeout):
             raise vlib.Infra('TLC did not finish config %s: %s' % (name, res['out'][-1500:]))
         n = 0
         path = os.path.join(casefile_dir, 'cases_%s.ndjson' % name)
+        lines = []
         with open(path, 'w') as o:
             for line in res['out'].splitlines():
                 m = _CASE.match(line)
@@ -114,8 +118,10 @@ def _model_check(name, c, sd, casefile_dir, timeout):
                 except ValueError as e:
                     raise vlib.Infra('cannot parse an exported case of %s: %s: %s' % (name, e, line[:300]))
                 case['cfg'] = name
-                o.write(json.dumps(case) + '\n')
+                lines.append(json.dumps(case))
                 n += 1
+            lines.sort()    # TLC's workers print in a scheduling-dependent order
+            o.write('\n'.join(lines) + ('\n' if lines else ''))
         return {'config': name, 'bounds': {k: v for k, v in c.items() if k != 'workers'}, 'states': res.get('distinct', 0),
                 'transitions': res.get('generated', 0), 'exported': n, 'wall_s': round(res['wall'], 1), 'cases': path}
     finally:
@@ -193,8 +199,10 @@ def run(tier):
         allcases = os.path.join(sd, 'cases.ndjson')
         with open(allcases, 'w') as o:
             for mc in mcs:
-                with open(mc.pop('cases')) as f:
+                cp = mc.pop('cases')
+                with open(cp) as f:
                     shutil.copyfileobj(f, o)
+                os.remove(cp)
         ncases = sum(mc['exported'] for mc in mcs)
         if ncases == 0:
             raise vlib.Infra('no case exported by TLC')
@@ -202,7 +210,7 @@ def run(tier):
         os.makedirs(obsdir)
         resp = os.path.join(sd, 'result.json')
         args = [binp, 'run', '-cases', allcases, '-out', resp, '-obs', obsdir, '-seed', str(vlib.seed())]
-        args += ['-permmax', '6', '-allperms', '24', '-obsmax', '1500'] if tier == 'quick' else ['-permmax', '24', '-allperms', '720', '-obsmax', '20000']
+        args += ['-permmax', '6', '-allperms', '24', '-obsmax', '1500'] if tier == 'quick' else ['-permmax', '24', '-allperms', '120', '-obsmax', '8000']
         r = vlib.run_cmd(args, timeout=600 if tier == 'quick' else 3000)
         if r.returncode != 0 or not os.path.exists(resp):
             raise vlib.Infra('c16 driver failed (rc %s): %s' % (r.returncode, (r.stdout + r.stderr)[-3000:]))
@@ -230,11 +238,13 @@ def run(tier):
         # ---- observations of the real reader validated by TLC
         obsres = []
         nobs = 0
-        for k in (1, 2, 3):
+        with concurrent.futures.ThreadPoolExecutor(max_workers=3) as ex:
+            ofuts = {k: ex.submit(_validate_obs, k, os.path.join(obsdir, 'obs_k%d.ndjson' % k), sd, tmo)
+                     for k in (1, 2, 3) if os.path.exists(os.path.join(obsdir, 'obs_k%d.ndjson' % k))}
+            odone = {k: f.result() for k, f in ofuts.items()}
+        for k in sorted(odone):
             p = os.path.join(obsdir, 'obs_k%d.ndjson' % k)
-            if not os.path.exists(p):
-                continue
-            o = _validate_obs(k, p, sd, tmo)
+            o = odone[k]
             lines = open(p).read().splitlines()
             for (idx, exp) in o['rejected']:
                 ob = json.loads(lines[idx - 1])
